@@ -17,12 +17,13 @@ Fixpoint bind {A B} (p : prog A) (f : A -> prog B) : prog B :=
 (* ===== decoder level: programs over a byte source and a byte sink ===== *)
 Inductive scall : Type :=
 | SNext                     (* READ_IF_NEEDED; *i_ptr++   : next input byte *)
+| SAvail                    (* READ_IF_NEEDED alone: make sure a byte is available, consume nothing *)
 | SCopyIn (n : nat)         (* deliver exactly n input bytes, chunk by chunk as buffered *)
 | SWrite (d : list byte).   (* sys->write(output, d, |d|) must accept all *)
 Inductive sres (A : Type) := SVal (a : A) | SStop (status : N).   (* SStop: the C function returns *)
 Arguments SVal {A}. Arguments SStop {A}.
 Definition sanswer (c : scall) : Type :=
-  match c with SNext => byte | SCopyIn _ => list byte | SWrite _ => unit end.
+  match c with SNext => byte | SAvail => unit | SCopyIn _ => list byte | SWrite _ => unit end.
 (* a decoder is a tree of source calls; an unavailable answer ends it with a status *)
 Inductive sprog (A : Type) : Type := SRet (a : A) | SDo (c : scall) (k : sanswer c -> sprog A).
 Arguments SRet {A}. Arguments SDo {A}.
@@ -61,6 +62,11 @@ Fixpoint ideal {A} (rule : eofrule) (p : sprog A) (s : ist) : sres A * ist :=
       | SVal (b, s') => ideal rule (k b) s'
       | SStop e => (SStop e, s)
       end
+  | SDo SAvail k =>
+      match irest s with
+      | [] => (SStop (eof_status rule), s)
+      | _ :: _ => ideal rule (k tt) s
+      end
   | SDo (SCopyIn n) k =>
       match ideal_take rule n s [] with
       | SVal (l, s') => ideal rule (k l) s'
@@ -73,9 +79,10 @@ Fixpoint ideal {A} (rule : eofrule) (p : sprog A) (s : ist) : sres A * ist :=
 Record bst := { bbuf : list byte; bend : bool (* input_end *) }.
 
 Section Buffered.
+Context {A : Type}.
 Variables (bufsize : N) (rule : eofrule).
 
-Definition b_fill (s : bst) (k : sres (byte * bst) -> prog (sres unit * bst)) : prog (sres unit * bst) :=
+Definition b_fill (s : bst) (k : sres (byte * bst) -> prog (sres A * bst)) : prog (sres A * bst) :=
   Do (HRead bufsize) (fun r =>
     match r with
     | RErr => k (SStop ERR_READ)
@@ -88,7 +95,7 @@ Definition b_fill (s : bst) (k : sres (byte * bst) -> prog (sres unit * bst)) : 
     | RBytes (b :: l) => k (SVal (b, {| bbuf := l; bend := bend s |}))
     end).
 
-Definition b_next (s : bst) (k : sres (byte * bst) -> prog (sres unit * bst)) : prog (sres unit * bst) :=
+Definition b_next (s : bst) (k : sres (byte * bst) -> prog (sres A * bst)) : prog (sres A * bst) :=
   match bbuf s with
   | b :: l => k (SVal (b, {| bbuf := l; bend := bend s |}))
   | [] => b_fill s k
@@ -96,7 +103,7 @@ Definition b_next (s : bst) (k : sres (byte * bst) -> prog (sres unit * bst)) : 
 
 (* while (todo > 0) { if (avail == 0) READ_IF_NEEDED; else { i = min(avail, todo); copy(...); ... } } *)
 Fixpoint b_copyin (fuel todo : nat) (s : bst) (acc : list byte)
-         (k : sres (list byte * bst) -> prog (sres unit * bst)) : prog (sres unit * bst) :=
+         (k : sres (list byte * bst) -> prog (sres A * bst)) : prog (sres A * bst) :=
   match todo with
   | O => k (SVal (rev_append acc [], s))
   | S _ =>
@@ -114,11 +121,18 @@ Fixpoint b_copyin (fuel todo : nat) (s : bst) (acc : list byte)
     end
   end.
 
-Fixpoint buffered (p : sprog unit) (s : bst) : prog (sres unit * bst) :=
+Fixpoint buffered (p : sprog A) (s : bst) : prog (sres A * bst) :=
   match p with
   | SRet a => Ret (SVal a, s)
   | SDo SNext k =>
       b_next s (fun r => match r with SVal (b, s') => buffered (k b) s' | SStop e => Ret (SStop e, s) end)
+  | SDo SAvail k =>
+      match bbuf s with
+      | _ :: _ => buffered (k tt) s
+      | [] => b_fill s (fun r => match r with
+                                 | SVal (b, s') => buffered (k tt) {| bbuf := b :: bbuf s'; bend := bend s' |}
+                                 | SStop e => Ret (SStop e, s) end)
+      end
   | SDo (SCopyIn n) k =>
       b_copyin (S (2 * n)) n s [] (fun r => match r with SVal (l, s') => buffered (k l) s' | SStop e => Ret (SStop e, s) end)
   | SDo (SWrite d) k =>
